@@ -30,6 +30,7 @@ import (
 	"github.com/tikv/pd/pkg/etcdutil"
 	"github.com/tikv/pd/pkg/grpcutil"
 	"github.com/tikv/pd/pkg/slice"
+	"github.com/tikv/pd/pkg/tsoutil"
 	"github.com/tikv/pd/server/config"
 	"github.com/tikv/pd/server/election"
 	"github.com/tikv/pd/server/kv"
@@ -1068,24 +1069,35 @@ func (am *AllocatorManager) getDCLocationInfoFromLeader(ctx context.Context, dcL
 // GetMaxLocalTSO will sync with the current Local TSO Allocators among the cluster to get the
 // max Local TSO.
 func (am *AllocatorManager) GetMaxLocalTSO(ctx context.Context) (*pdpb.Timestamp, error) {
-	// Sync the max local TSO from the other Local TSO Allocators who has been initialized
+	// Sync the max local TSO from the other Local TSO Allocators who has been initialized,
+	// i.e. from every dc-location that has a Local TSO Allocator leader, no matter which member it is.
 	clusterDCLocations := am.GetClusterDCLocations()
 	for dcLocation := range clusterDCLocations {
 		allocatorGroup, ok := am.getAllocatorGroup(dcLocation)
-		if !(ok && allocatorGroup.leadership.Check()) {
+		if !ok {
+			delete(clusterDCLocations, dcLocation)
+			continue
+		}
+		localAllocator, isLocal := allocatorGroup.allocator.(*LocalTSOAllocator)
+		if !isLocal || localAllocator.GetAllocatorLeader().GetMemberId() == 0 {
 			delete(clusterDCLocations, dcLocation)
 		}
 	}
 	maxTSO := &pdpb.Timestamp{}
-	if len(clusterDCLocations) == 0 {
-		return maxTSO, nil
-	}
 	globalAllocator, err := am.GetAllocator(GlobalDCLocation)
 	if err != nil {
 		return nil, err
 	}
-	if err := globalAllocator.(*GlobalTSOAllocator).SyncMaxTS(ctx, clusterDCLocations, maxTSO, false); err != nil {
-		return nil, err
+	if len(clusterDCLocations) > 0 {
+		if err := globalAllocator.(*GlobalTSOAllocator).SyncMaxTS(ctx, clusterDCLocations, maxTSO, false); err != nil {
+			return nil, err
+		}
+	}
+	// Every Global TSO returned so far is covered by the memory of the Global TSO Allocator, also when no
+	// other dc-location has a Local TSO Allocator leader at the moment.
+	if currentGlobalTSO, err := globalAllocator.(*GlobalTSOAllocator).getCurrentTSO(); err == nil &&
+		tsoutil.CompareTimestamp(currentGlobalTSO, maxTSO) > 0 {
+		maxTSO = currentGlobalTSO
 	}
 	return maxTSO, nil
 }
